@@ -111,7 +111,7 @@ func UnpackDatagram(buf []byte) ([][]byte, error) {
 	out := [][]byte{}
 
 	for offset := 0; len(buf) != offset; {
-		if len(buf)-offset <= FixedHeaderSize {
+		if len(buf)-offset < FixedHeaderSize {
 			return nil, ErrInvalidPacketLength
 		}
 
@@ -140,7 +140,7 @@ func ContentAwareUnpackDatagram(buf []byte, cidLength int) ([][]byte, error) {
 			headerSize += cidLength
 			lenIdx += cidLength
 		}
-		if len(buf)-offset <= headerSize {
+		if len(buf)-offset < headerSize {
 			return nil, ErrInvalidPacketLength
 		}
 
